@@ -25,7 +25,7 @@
 From Coq Require Import ZArith List Bool.
 From VBase Require Import MachInt.
 From VModel Require Import Merkle Integrity.
-From VProofs Require Import MerkleBase MerkleSingle IntegrityOrder IntegrityBinding IntegrityExamples IntegrityTranscript.
+From VProofs Require Import MerkleBase MerkleSingle IntegrityOrder IntegrityBinding IntegrityExamples IntegrityTranscript IntegrityCheckSound.
 Import ListNotations.
 
 (* ------------------------------------------------------------------------------------------------ structure *)
@@ -34,6 +34,21 @@ Import ListNotations.
 Theorem C03_events_check : forall s, admissible current s = true -> check st0 (events current s) = true.
 Proof. exact events_check. Qed.
 Print Assumptions C03_events_check.
+
+(* ... and ANY event list accepted by the checker (not only the generator's) obeys the discipline, in declarative form
+   ([demands pre e], Proofs/IntegrityCheckSound.v: an Absorb / DrawPositions has no DrawPositions before it; an AuthCheck
+   comes after DrawPositions, against a root absorbed before, of rows hashed before; the remainder-commitment comparison is
+   against an absorbed commitment of a hashed remainder; a Use of query data comes after DrawPositions and after the
+   authentication of that data).  [check] is therefore a sound oracle for observed event logs. *)
+Theorem C03_check_sound : forall l, check st0 l = true ->
+  forall pre e post, l = pre ++ e :: post -> demands pre e.
+Proof. exact check_sound. Qed.
+Print Assumptions C03_check_sound.
+
+Theorem C03_events_obey_discipline : forall s, admissible current s = true ->
+  forall pre e post, events current s = pre ++ e :: post -> demands pre e.
+Proof. exact events_obey_discipline. Qed.
+Print Assumptions C03_events_obey_discipline.
 
 (* every_component_bound: every component consumed by arithmetic or control flow, except layout-only metadata, is bound *)
 Theorem C03_every_component_bound : forall s c, admissible current s = true ->
